@@ -50,6 +50,22 @@ CHECKS["C13"] = dict(
         "empty fill or reader error. Necessary conditions of `each byte exactly once` and `never reports missing data that is available`; "
         "value equality with the slice reader for all chunkings is not decided.",
    design_ref="DESIGN.md §3 C13")
+CHECKS["C19"] = dict(
+   technique="static analysis: data-flow dependence shape of every RandomCoin method on all paths, must-pass state updates, canonical comparison of the prover's and verifier's proof-of-work predicates",
+   text="Static proof over every path of each RandomCoin implementation that seed and counter updates have the documented dependence shape "
+        "(new/reseed/next/draw_integers), that every drawn element is the Some payload of the field's validated conversion of a fresh next() "
+        "output, that integers are next() outputs masked with domain_size-1 and counted, that the proof-of-work measure is read-only and "
+        "counter-independent, and that the prover's search predicate is the exact complement of the verifier's reject predicate. Statistical "
+        "statements are not decided.",
+   design_ref="DESIGN.md §3 C19")
+CHECKS["C15"] = dict(
+   technique="static analysis: typestate (clean/dirty) as must-pass-through on all return paths, control-dependence of the divisibility decision, sibling agreement of prover and verifier loops",
+   text="Static proof that FriProver::build_proof empties layers and remainder on every return path and refuses to run unless dirty, that "
+        "build_layers refuses to run unless clean and always stores a remainder, that FriVerifier::new exempts the remainder commitment from "
+        "the divisibility requirement, and that prover and verifier take the layer count from FriOptions::num_fri_layers and fold positions/"
+        "shrink the domain once per layer with the same function. Necessary conditions of reuse and of acceptance of honest proofs with short "
+        "remainders; the folding identity is not decided.",
+   design_ref="DESIGN.md §3 C15")
 NA = {
 }
 PENDING = "check under construction in this build round (see DESIGN.md §8)"
